@@ -1401,6 +1401,10 @@ func (fr *Frame) sliceOp(st *State, x *ssa.Slice) {
 		}
 		ref := fr.tv(st, x.X).S
 		if s.keyMode && isByteSlice(x.Type()) {
+			if at.Len() == 0 {
+				fr.bind(st, x, TV{"0", SInt, x.Type()}) // []byte{} is the empty key
+				return
+			}
 			fr.bind(st, x, r.freshOf(st, "keyslice", x.Type()))
 			return
 		}
